@@ -193,3 +193,232 @@ Proof.
       rewrite <- rc_module_word. unfold rotl. apply occurs_once_rot. apply occurs_once_rc.
       rewrite rc_codes_involutive. exact U1.
 Qed.
+
+(* ---------- the reverse complement of the vector of the formal definition ---------------- *)
+
+Lemma rc_vector_word bl (Odn Y R P S X Oup : list letter) bf (Bmid : list letter) :
+  rc ([bl] ++ Odn ++ Y ++ R ++ P ++ S ++ X ++ Oup ++ [bf] ++ Bmid) =
+  rotr (Z.of_nat (length Bmid))
+       ([compl_l bf] ++ rc Oup ++ rc X ++ rc S ++ rc P ++ rc R ++ rc Y ++ rc Odn ++ [compl_l bl] ++ rc Bmid).
+Proof.
+  rewrite !rc_app. rewrite <- !app_assoc.
+  change (rc [bf]) with [compl_l bf]. change (rc [bl]) with [compl_l bl].
+  set (body := [compl_l bf] ++ rc Oup ++ rc X ++ rc S ++ rc P ++ rc R ++ rc Y ++ rc Odn ++ [compl_l bl]).
+  replace ([compl_l bf] ++ rc Oup ++ rc X ++ rc S ++ rc P ++ rc R ++ rc Y ++ rc Odn ++ [compl_l bl] ++ rc Bmid)
+    with (body ++ rc Bmid) by (unfold body; now rewrite <- !app_assoc).
+  rewrite <- (rc_length Bmid).
+  rewrite rotr_last_to_front by (rewrite app_length; lia).
+  rewrite app_length. replace (length body + length (rc Bmid) - length (rc Bmid)) with (length body) by lia.
+  rewrite skipn_app, skipn_all, Nat.sub_diag, firstn_app, firstn_all, Nat.sub_diag. cbn [skipn firstn]. rewrite app_nil_r.
+  unfold body. now rewrite <- !app_assoc.
+Qed.
+
+(* C12 for the generic vector class *)
+Theorem strand_vector e bl (Odn Y R P S X Oup : list letter) bf (Bmid : list letter) k :
+  map lcode S = esite e -> map lcode R = rc_codes (esite e) -> 0 < length (esite e) ->
+  length X = eoff e -> length Y = eoff e -> length Odn = eovh e -> length Oup = eovh e ->
+  Forall nucl X -> Forall nucl Y -> Forall nucl P -> Forall nucl Odn -> Forall nucl Oup -> nucl bl -> nucl bf ->
+  let s0 := [bl] ++ Odn ++ Y ++ R ++ P ++ S ++ X ++ Oup ++ [bf] ++ Bmid in
+  occurs_once (esite e) s0 -> occurs_once (rc_codes (esite e)) s0 ->
+  observe (C RVector e (vector_structure e)) (rotr k s0) =
+    (true, Some Oup, Some Odn, Some (Oup ++ [bf] ++ Bmid ++ [bl]), Some (Odn ++ Y ++ R ++ P ++ S ++ X)) /\
+  observe (C RVector e (vector_structure e)) (rotr k (rc s0)) =
+    (true, Some (rc Odn), Some (rc Oup), Some (rc Odn ++ [compl_l bl] ++ rc Bmid ++ [compl_l bf]),
+     Some (rc Oup ++ rc X ++ rc S ++ rc P ++ rc R ++ rc Y)).
+Proof.
+  intros HS HR Hs LX LY Ld Lu NX NY NP Nd Nu Nbl Nbf s0 U1 U2.
+  assert (Hgen : vector_structure e = vector_structure_sig e (atoms (repeat setN (eovh e))) (atoms (repeat setN (eovh e)))).
+  { unfold vector_structure. now rewrite atoms_repeat. }
+  rewrite Hgen. split.
+  - apply canonical_vector; auto; try (now rewrite repeat_length).
+    + rewrite <- Ld. now apply atoms_ok_setN.
+    + rewrite <- Lu. now apply atoms_ok_setN.
+  - unfold s0. rewrite rc_vector_word, rotr_add.
+    apply (canonical_vector e (repeat setN (eovh e)) (repeat setN (eovh e)) (compl_l bf) (rc Oup) (rc X) (rc S) (rc P)
+             (rc R) (rc Y) (rc Odn) (compl_l bl) (rc Bmid));
+      try (now rewrite repeat_length); try (rewrite rc_length; assumption); auto using nucl_rc, nucl_compl.
+    + rewrite map_lcode_rc, HR. apply rc_codes_involutive.
+    + rewrite map_lcode_rc. now rewrite HS.
+    + rewrite <- Lu, <- (rc_length Oup). apply atoms_ok_setN. now apply nucl_rc.
+    + rewrite <- Ld, <- (rc_length Odn). apply atoms_ok_setN. now apply nucl_rc.
+    + rewrite <- (rotl_rotr (Z.of_nat (length Bmid))
+         ([compl_l bf] ++ rc Oup ++ rc X ++ rc S ++ rc P ++ rc R ++ rc Y ++ rc Odn ++ [compl_l bl] ++ rc Bmid)).
+      rewrite <- rc_vector_word. unfold rotl. apply occurs_once_rot. apply occurs_once_rc. exact U2.
+    + rewrite <- (rotl_rotr (Z.of_nat (length Bmid))
+         ([compl_l bf] ++ rc Oup ++ rc X ++ rc S ++ rc P ++ rc R ++ rc Y ++ rc Odn ++ [compl_l bl] ++ rc Bmid)).
+      rewrite <- rc_vector_word. unfold rotl. apply occurs_once_rot. apply occurs_once_rc.
+      rewrite rc_codes_involutive. exact U1.
+Qed.
+
+(* ---------- assembling the reverse complements --------------------------------------------- *)
+From MV Require Import Assembly AssemblyLemmas.
+From Coq Require Import Permutation.
+
+(* a module / a vector by its letters: overhangs and body *)
+Record smod := SM { sid : nat; so5 : list letter; sbody : list letter; so3 : list letter }.
+Record svec := SV { sup : list letter; svbody : list letter; sdn : list letter }.
+
+Definition tmod_of (m : smod) : @tmod (list code) := TM (sid m) (okey (so5 m)) (okey (so3 m)) (so5 m ++ sbody m).
+Definition tvec_of (v : svec) : @tvec (list code) := TV (okey (sup v)) (okey (sdn v)) (sup v ++ svbody v).
+
+(* what the reverse complements of the plasmids report (C12_module / strand_vector) *)
+Definition rc_smod (m : smod) : smod := SM (sid m) (rc (so3 m)) (rc (sbody m)) (rc (so5 m)).
+Definition rc_svec (v : svec) : svec := SV (rc (sdn v)) (rc (svbody v)) (rc (sup v)).
+
+Lemma okey_rc w : okey (rc w) = rc_codes (okey w).
+Proof. unfold okey. apply map_lcode_rc. Qed.
+
+(* consecutive overhang keys: a -> ... -> b along the list of (start, end) keys *)
+Fixpoint path (a : list code) (l : list (list code * list code)) (b : list code) : Prop :=
+  match l with
+  | [] => a = b
+  | (u, d) :: r => u = a /\ path d r b
+  end.
+
+Definition keys_of (m : smod) : list code * list code := (okey (so5 m), okey (so3 m)).
+Definition keys_rc (m : smod) : list code * list code := (rc_codes (okey (so3 m)), rc_codes (okey (so5 m))).
+
+Lemma path_snoc l : forall a u d b, path a l u -> d = b -> path a (l ++ [(u, d)]) b.
+Proof.
+  induction l as [|[x y] l IH]; intros a u d b Hp Hd; cbn in *.
+  - subst. auto.
+  - destruct Hp as [Hx Hp]. split; [exact Hx|]. now apply IH.
+Qed.
+
+(* the reverse-complemented modules chain in the opposite order, from rc(b) to rc(a) *)
+Lemma path_rev cs : forall a b, path a (map keys_of cs) b ->
+  path (rc_codes b) (map keys_rc (rev cs)) (rc_codes a).
+Proof.
+  induction cs as [|m cs IH]; intros a b Hp; cbn in *.
+  - now subst.
+  - destruct Hp as [Hm Hp]. rewrite map_app. cbn [map]. unfold keys_rc at 2.
+    apply path_snoc; [now apply IH|now rewrite Hm].
+Qed.
+
+(* the walk follows a path as long as it does not meet the vector's upstream key early *)
+Fixpoint linked (a : list code) (c : list (@tmod (list code))) (b : list code) : Prop :=
+  match c with
+  | [] => a = b
+  | m :: c' => a <> b /\ mup m = a /\ linked (mdown m) c' b
+  end.
+
+Lemma path_linked (f : smod -> @tmod (list code)) (kf : smod -> list code * list code) cs :
+  (forall m, mup (f m) = fst (kf m) /\ mdown (f m) = snd (kf m)) ->
+  forall a b, path a (map kf cs) b -> Forall (fun m => fst (kf m) <> b) cs -> linked a (map f cs) b.
+Proof.
+  intros Hk. induction cs as [|m cs IH]; intros a b Hp Hf; cbn in *; [exact Hp|].
+  destruct (kf m) as [u d] eqn:E. destruct Hp as [Hu Hp]. inversion Hf as [|? ? Hm Hf']; subst.
+  destruct (Hk m) as [H1 H2]. rewrite E in H1, H2, Hm. cbn in *.
+  split; [congruence|]. split; [exact H1|]. rewrite H2. now apply IH.
+Qed.
+
+Lemma linked_Chain c : forall ms a b, linked a c b -> Permutation ms c -> Chain ms a b c [].
+Proof.
+  induction c as [|m c IH]; intros ms a b Hl Hp; cbn in Hl.
+  - subst. apply Permutation_sym, Permutation_nil in Hp. subst. constructor.
+  - destruct Hl as (Hab & Hm & Hl).
+    assert (Hin : In m ms) by (eapply Permutation_in; [symmetry; exact Hp|now left]).
+    apply in_split in Hin. destruct Hin as [l1 [l2 ->]].
+    apply Permutation_sym, Permutation_cons_app_inv, Permutation_sym in Hp.
+    constructor; auto.
+Qed.
+
+(* ---------- the two product words --------------------------------------------------------- *)
+
+Definition frag (m : smod) : list letter := so5 m ++ sbody m.
+Definition frag_rc (m : smod) : list letter := rc (so3 m) ++ rc (sbody m).
+
+Lemma same_codes_okey a b : okey a = okey b -> same_codes a b.
+Proof. exact (fun H => H). Qed.
+
+Lemma same_codes_rc a b : same_codes a b -> same_codes (rc a) (rc b).
+Proof. unfold same_codes. intros H. now rewrite !map_lcode_rc, H. Qed.
+
+Lemma same_codes_trans a b c : same_codes a b -> same_codes b c -> same_codes a c.
+Proof. unfold same_codes. congruence. Qed.
+
+Lemma same_codes_sym a b : same_codes a b -> same_codes b a.
+Proof. unfold same_codes. congruence. Qed.
+
+(* shifting the junction overhangs by one module: with RS the chain in reverse order *)
+Lemma shift_overhangs RS : forall (y z : list letter) k kz,
+  path k (map keys_rc RS) kz -> okey y = k -> okey z = kz ->
+  same_codes (concat (map frag_rc RS) ++ z)
+             (y ++ concat (map (fun m => rc (sbody m) ++ rc (so5 m)) RS)).
+Proof.
+  induction RS as [|m RS IH]; intros y z k kz Hp Hy Hz; cbn in *.
+  - rewrite app_nil_r. subst. apply same_codes_sym. unfold same_codes, okey in *. congruence.
+  - destruct Hp as [Hm Hp]. unfold frag_rc at 1. rewrite <- !app_assoc.
+    apply same_codes_app.
+    + unfold same_codes. rewrite map_lcode_rc. unfold okey in *. congruence.
+    + apply same_codes_app; [reflexivity|].
+      apply (IH (rc (so5 m)) z _ kz Hp); [now rewrite okey_rc|exact Hz].
+Qed.
+
+Lemma rc_concat_frags cs :
+  rc (concat (map frag cs)) = concat (map (fun m => rc (sbody m) ++ rc (so5 m)) (rev cs)).
+Proof.
+  induction cs as [|m cs IH]; [reflexivity|]. cbn [map concat rev].
+  rewrite rc_app, IH, map_app, concat_app. cbn [map concat]. unfold frag. now rewrite rc_app, app_nil_r.
+Qed.
+
+(* C12, assembly level: if the modules chain from the vector's downstream to its upstream
+   overhang (all used), ids distinct, and the overhang sets of both strands are clash-free, then
+   assembling the reverse complements succeeds with the modules in the opposite order, and its
+   product is, up to letter case at the junctions, a rotation of the reverse complement of the product *)
+Theorem strand_assembly (v : svec) (cs ms : list smod) :
+  Permutation ms cs -> NoDup (map sid ms) ->
+  path (okey (sdn v)) (map keys_of cs) (okey (sup v)) ->
+  okey (sup v) <> okey (sdn v) ->
+  Forall (fun m => okey (so5 m) <> okey (sup v)) cs ->
+  Forall (fun m => okey (so3 m) <> okey (sdn v)) cs ->
+  clash_free rc_codes (map tmod_of ms) -> clash_free rc_codes (map tmod_of (map rc_smod ms)) ->
+  let w := concat (map frag cs) ++ (sup v ++ svbody v) in
+  let w' := concat (map frag_rc (rev cs)) ++ (rc (sdn v) ++ rc (svbody v)) in
+  dna_assemble (tvec_of v) (map tmod_of ms) = Product w (map sid cs) [] /\
+  dna_assemble (tvec_of (rc_svec v)) (map tmod_of (map rc_smod ms)) = Product w' (map sid (rev cs)) [] /\
+  same_codes w' (rotl (Z.of_nat (length (rc (svbody v)))) (rc w)).
+Proof.
+  intros Hperm Hid Hpath Hv F5 F3 CF CF' w w'.
+  assert (Hids : forall l : list smod, map mid (map tmod_of l) = map sid l) by (intros l; rewrite map_map; reflexivity).
+  assert (Hids' : forall l : list smod, map mid (map tmod_of (map rc_smod l)) = map sid l) by (intros l; rewrite !map_map; reflexivity).
+  split; [|split].
+  - (* forward *)
+    assert (Hl : linked (okey (sdn v)) (map tmod_of cs) (okey (sup v))).
+    { apply (path_linked tmod_of keys_of); auto. }
+    pose proof (linked_Chain _ (map tmod_of ms) _ _ Hl (Permutation_map _ Hperm)) as Hc.
+    pose proof (assemble_chain codes_eqb rc_codes codes_eqb_spec (tvec_of v) (map tmod_of ms) _ _
+                  ltac:(rewrite Hids; exact Hid) Hv CF Hc) as H.
+    unfold dna_assemble. rewrite H. unfold w. f_equal.
+    + f_equal. rewrite map_map. reflexivity.
+    + apply Hids.
+  - (* reverse strand *)
+    assert (Hl : linked (okey (sup (rc_svec v) ) ) [] (okey (sup (rc_svec v)))) by reflexivity.
+    assert (Hp' : path (rc_codes (okey (sup v))) (map keys_rc (rev cs)) (rc_codes (okey (sdn v)))) by now apply path_rev.
+    assert (Hl' : linked (rc_codes (okey (sup v))) (map (fun m => tmod_of (rc_smod m)) (rev cs)) (rc_codes (okey (sdn v)))).
+    { apply (path_linked (fun m => tmod_of (rc_smod m)) keys_rc).
+      - intros m. cbn. now rewrite !okey_rc.
+      - exact Hp'.
+      - apply Forall_rev. eapply Forall_impl; [|exact F3]. intros m Hm. cbn. intros E. apply Hm.
+        rewrite <- (rc_codes_involutive (okey (so3 m))), E. apply rc_codes_involutive. }
+    assert (Hperm' : Permutation (map tmod_of (map rc_smod ms)) (map (fun m => tmod_of (rc_smod m)) (rev cs))).
+    { rewrite map_map. apply Permutation_map. rewrite Hperm. apply Permutation_rev. }
+    pose proof (linked_Chain _ _ _ _ Hl' Hperm') as Hc.
+    assert (Hv' : vup (tvec_of (rc_svec v)) <> vdown (tvec_of (rc_svec v))).
+    { cbn. rewrite !okey_rc. intros E. apply Hv. symmetry.
+      rewrite <- (rc_codes_involutive (okey (sdn v))), E. apply rc_codes_involutive. }
+    assert (Hc2 : Chain (map tmod_of (map rc_smod ms)) (vdown (tvec_of (rc_svec v))) (vup (tvec_of (rc_svec v)))
+                        (map (fun m => tmod_of (rc_smod m)) (rev cs)) []).
+    { cbn. rewrite !okey_rc. exact Hc. }
+    pose proof (assemble_chain codes_eqb rc_codes codes_eqb_spec (tvec_of (rc_svec v)) _ _ _
+                  ltac:(rewrite Hids'; exact Hid) Hv' CF' Hc2) as H.
+    unfold dna_assemble. rewrite H. unfold w'. f_equal.
+    + f_equal. rewrite map_map. reflexivity.
+    + rewrite map_map. reflexivity.
+  - (* the two words *)
+    unfold w, w'. rewrite !rc_app, rc_concat_frags. rewrite <- !app_assoc.
+    rewrite rotl_app. rewrite app_assoc.
+    apply same_codes_app; [|reflexivity].
+    apply (shift_overhangs (rev cs) (rc (sup v)) (rc (sdn v)) (rc_codes (okey (sup v))) (rc_codes (okey (sdn v))));
+      [now apply path_rev|apply okey_rc|apply okey_rc].
+Qed.
